@@ -202,19 +202,105 @@ __CPROVER_ensures(g_sx_live == __CPROVER_old(g_sx_live) + (__CPROVER_return_valu
            && (s)[*(i) + 1 < (n) ? *(i) + 1 : 0] == 'x' \
            && SPEC_SX_ISXDIGIT((s)[*(i) + 2 < (n) ? *(i) + 2 : 0]))))
 
+#define SX_INT_ENSURES(s, n, i, offset, base) \
+__CPROVER_ensures(__CPROVER_old(*i) + (offset) < *i && *i <= n) \
+__CPROVER_ensures(IMPLIES(__CPROVER_old(*i) + (offset) <= g_k && g_k < *i, SX_ISBASEDIGIT(base, s[g_k]))) \
+__CPROVER_ensures(IMPLIES(*i < n, !SX_ISBASEDIGIT(base, s[*i]))) \
+__CPROVER_ensures((__CPROVER_return_value == NULL) == (*i < n && !SPEC_SX_ISDELIM(s[*i]))) \
+__CPROVER_ensures(IMPLIES(__CPROVER_return_value != NULL, \
+    SX_NODE_FRESH(__CPROVER_return_value) && __CPROVER_return_value->type == SXT_INTEGER)) \
+__CPROVER_ensures(g_sx_live == __CPROVER_old(g_sx_live) + (__CPROVER_return_value != NULL ? 1 : 0))
+
 static struct sx_node *parse_integer_(const char *s, const size_t n, size_t *i, size_t offset,
                                       int (*digitpredicate)(int), uint64_t base)
 __CPROVER_requires(SX_INT_REQUIRES(s, n, i, offset, base))
 __CPROVER_requires(digitpredicate == ((base) == 10 ? isdigit : isxdigit))
 __CPROVER_requires(SX_STATIC_DIGITS_OK)
 __CPROVER_assigns(*i, g_sx_live)
-__CPROVER_ensures(__CPROVER_old(*i) + offset < *i && *i <= n)
-__CPROVER_ensures(IMPLIES(__CPROVER_old(*i) + offset <= g_k && g_k < *i, SX_ISBASEDIGIT(base, s[g_k])))
-__CPROVER_ensures(IMPLIES(*i < n, !SX_ISBASEDIGIT(base, s[*i])))
-__CPROVER_ensures((__CPROVER_return_value == NULL) == (*i < n && !SPEC_SX_ISDELIM(s[*i])))
-__CPROVER_ensures(IMPLIES(__CPROVER_return_value != NULL,
-    SX_NODE_FRESH(__CPROVER_return_value) && __CPROVER_return_value->type == SXT_INTEGER))
-__CPROVER_ensures(g_sx_live == __CPROVER_old(g_sx_live) + (__CPROVER_return_value != NULL ? 1 : 0))
+SX_INT_ENSURES(s, n, i, offset, base)
+;
+
+static inline struct sx_node *parse_integer(const char *s, const size_t n, size_t *i)
+__CPROVER_requires(SX_INT_REQUIRES(s, n, i, 0, 10))
+__CPROVER_requires(SX_STATIC_DIGITS_OK)
+__CPROVER_assigns(*i, g_sx_live)
+SX_INT_ENSURES(s, n, i, 0, 10)
+;
+
+static inline struct sx_node *parse_hinteger(const char *s, const size_t n, size_t *i)
+__CPROVER_requires(SX_INT_REQUIRES(s, n, i, 2, 16))
+__CPROVER_requires(SX_STATIC_DIGITS_OK)
+__CPROVER_assigns(*i, g_sx_live)
+SX_INT_ENSURES(s, n, i, 2, 16)
+;
+
+/* ---- one token ------------------------------------------------------------
+ * Status / node / position relation of sx_parse_token (public).  "Nothing but
+ * whitespace" is NOT an error at this level (test suite: SXS_SUCCESS with a
+ * NULL node); the expression level turns it into SXS_UNEXPECTED_END.
+ *   success + node  : i < position <= n, fresh symbol / integer / empty-list
+ *                     node, the token ends at position, only whitespace
+ *                     before it
+ *   SXS_FOUND_LIST  : '(' at position-1, no node
+ *   error           : no node, nothing allocated, position = offending octet
+ * The text of a symbol node is the token itself: with L = its length,
+ * symbol == s[position-L .. position).
+ */
+#if VERIF_IS_NATIVE
+#define SX_SYMLEN(p) strlen(p)
+#else
+#define SX_SYMLEN(p) (__CPROVER_OBJECT_SIZE(p) - 1)
+#endif
+#define SX_STATUS_IS_ERROR(st) ((st) == SXS_BROKEN_INTEGER || (st) == SXS_BROKEN_SYMBOL \
+                                || (st) == SXS_UNKNOWN_INPUT || (st) == SXS_UNEXPECTED_END)
+#define SX_RV __CPROVER_return_value
+
+struct sx_parse_result sx_parse_token(const char *s, const size_t n, const size_t i)
+__CPROVER_requires(__CPROVER_r_ok(s, n) && i <= n)
+__CPROVER_requires(SX_STATIC_DIGITS_OK && SX_STATIC_SYMTAB_OK)
+__CPROVER_assigns(g_sx_live)
+__CPROVER_ensures(SX_RV.status == SXS_SUCCESS || SX_RV.status == SXS_FOUND_LIST
+    || SX_RV.status == SXS_BROKEN_INTEGER || SX_RV.status == SXS_BROKEN_SYMBOL
+    || SX_RV.status == SXS_UNKNOWN_INPUT)
+__CPROVER_ensures(SX_RV.position <= n)
+/* nothing but whitespace */
+__CPROVER_ensures(IMPLIES(SX_RV.status == SXS_SUCCESS && SX_RV.node == NULL,
+    SX_RV.position == 0 && IMPLIES(i <= g_k && g_k < n, SPEC_SX_ISSPACE(s[g_k]))))
+/* a token */
+__CPROVER_ensures(IMPLIES(SX_RV.status == SXS_SUCCESS && SX_RV.node != NULL,
+    i < SX_RV.position && SX_NODE_FRESH(SX_RV.node)
+    && (SX_RV.node->type == SXT_SYMBOL || SX_RV.node->type == SXT_INTEGER || SX_RV.node->type == SXT_EMPTY_LIST)
+    && (SX_RV.position == n || SX_RV.node->type == SXT_EMPTY_LIST || SPEC_SX_ISDELIM(s[SX_RV.position]))))
+__CPROVER_ensures(IMPLIES(SX_RV.status == SXS_SUCCESS && SX_RV.node != NULL && SX_RV.node->type == SXT_EMPTY_LIST,
+    s[SX_RV.position - 1] == ')' && IMPLIES(i <= g_k && g_k < SX_RV.position - 1, SPEC_SX_ISSPACE(s[g_k]))))
+__CPROVER_ensures(IMPLIES(SX_RV.status == SXS_SUCCESS && SX_RV.node != NULL && SX_RV.node->type == SXT_INTEGER,
+    SPEC_SX_ISXDIGIT(s[SX_RV.position - 1])))
+__CPROVER_ensures(IMPLIES(SX_RV.status == SXS_SUCCESS && SX_RV.node != NULL && SX_RV.node->type == SXT_SYMBOL,
+    __CPROVER_r_ok(SX_RV.node->data.symbol, 1)
+    && SX_SYMLEN(SX_RV.node->data.symbol) >= 1 && SX_SYMLEN(SX_RV.node->data.symbol) <= SX_RV.position - i
+    && SX_RV.node->data.symbol[SX_SYMLEN(SX_RV.node->data.symbol)] == '\0'
+    && SPEC_SX_ISSYMINIT(s[SX_RV.position - SX_SYMLEN(SX_RV.node->data.symbol)])
+    && IMPLIES(g_k < SX_SYMLEN(SX_RV.node->data.symbol),
+               SX_RV.node->data.symbol[g_k] == s[SX_RV.position - SX_SYMLEN(SX_RV.node->data.symbol) + g_k])
+    && IMPLIES(i <= g_k && g_k < SX_RV.position - SX_SYMLEN(SX_RV.node->data.symbol), SPEC_SX_ISSPACE(s[g_k]))))
+/* the start of a list */
+__CPROVER_ensures(IMPLIES(SX_RV.status == SXS_FOUND_LIST,
+    SX_RV.node == NULL && i < SX_RV.position && s[SX_RV.position - 1] == '('
+    && IMPLIES(i <= g_k && g_k < SX_RV.position - 1, SPEC_SX_ISSPACE(s[g_k]))))
+/* errors: no node; position is the offending octet */
+__CPROVER_ensures(IMPLIES(SX_STATUS_IS_ERROR(SX_RV.status),
+    SX_RV.node == NULL && i <= SX_RV.position && SX_RV.position < n))
+__CPROVER_ensures(IMPLIES(SX_RV.status == SXS_UNKNOWN_INPUT,
+    !SPEC_SX_ISSPACE(s[SX_RV.position]) && SPEC_SX_LOOKING_AT(s, n, SX_RV.position) == SPEC_SX_AT_UNKNOWN
+    && IMPLIES(i <= g_k && g_k < SX_RV.position, SPEC_SX_ISSPACE(s[g_k]))))
+__CPROVER_ensures(IMPLIES(SX_RV.status == SXS_BROKEN_SYMBOL,
+    i < SX_RV.position && SPEC_SX_ISSYMCH(s[SX_RV.position - 1])
+    && !SPEC_SX_ISSYMCH(s[SX_RV.position]) && !SPEC_SX_ISDELIM(s[SX_RV.position])))
+__CPROVER_ensures(IMPLIES(SX_RV.status == SXS_BROKEN_INTEGER,
+    i < SX_RV.position && SPEC_SX_ISXDIGIT(s[SX_RV.position - 1]) && !SPEC_SX_ISDELIM(s[SX_RV.position])))
+/* ledger */
+__CPROVER_ensures(g_sx_live == __CPROVER_old(g_sx_live)
+    + (SX_RV.node == NULL ? 0 : SX_RV.node->type == SXT_SYMBOL ? 2 : 1))
 ;
 
 #endif
